@@ -22,6 +22,12 @@ theorem facts_threshold :
     BridgeConsts.successCmp = ">=" ∧ BridgeConsts.failedCmp = "<" ∧ BridgeConsts.tallyCmp = ">" ∧
     BridgeConsts.claimPowerNeedsWhitelist = true ∧ BridgeConsts.unreadable = [] := by decide
 
+/-- the whitelist and duplicate guards compare the address *string* of the message (with the canonical spelling of a
+    whitelist entry / with the canonical keys `AddClaim` stores), as `ensureInWhiteList` / `hasClaimKey` model it -/
+theorem facts_address_strings :
+    BridgeConsts.whitelistTest = "address.String() == validatorAddress" ∧
+    BridgeConsts.duplicateTest = "prophecy.ValidatorClaims[claim.ValidatorAddress] != \"\"" := by decide
+
 /-- `ProcessClaim` returns its guards' errors in the modelled order, before `AddClaim` -/
 theorem facts_processClaim :
     BridgeConsts.processClaimErrors = ["ErrInvalidValidator", "ErrInvalidIdentifier", "ErrInvalidClaim", "ErrProphecyFinalized", "ErrDuplicateMessage"] ∧
@@ -35,15 +41,25 @@ theorem facts_processClaim :
 theorem claim_rejected_not_whitelisted (ord : List Group → List Group) (vals : List Validator) (st : OState) (c : Claim)
     (h : inWhiteList st.whitelist c.validator = false) :
     processClaim ord vals st c = .error .notWhitelisted := by
-  unfold processClaim
+  unfold processClaim ensureInWhiteList
   simp [h]
 
 example : inWhiteList (OState.mk [1, 2] [] none).whitelist 3 = false := by decide
 
+/-- The whitelist is matched against the address *string* of the message: any spelling of a validator's operator
+    address other than the canonical bech32 text (all upper case, say) is rejected as not whitelisted, so one
+    validator cannot appear under two spellings. -/
+theorem claim_rejected_other_spelling (ord : List Group → List Group) (vals : List Validator) (st : OState) (c : Claim)
+    (h : c.spelling ≠ 0) : processClaim ord vals st c = .error .notWhitelisted := by
+  unfold processClaim ensureInWhiteList
+  simp [h]
+
+example : (⟨"a", 1, .empty, 1⟩ : Claim).spelling ≠ 0 := by decide
+
 /-- A claim by a whitelisted validator that staking does not know, or that is not bonded, is rejected
     (`ErrInvalidValidator`). -/
 theorem claim_rejected_not_bonded (ord : List Group → List Group) (vals : List Validator) (st : OState) (c : Claim)
-    (hw : inWhiteList st.whitelist c.validator = true) (h : checkActive vals c.validator = false) :
+    (hw : ensureInWhiteList st.whitelist c = true) (h : checkActive vals c.validator = false) :
     processClaim ord vals st c = .error .invalidValidator := by
   unfold processClaim
   simp [hw, h]
@@ -53,16 +69,17 @@ example : checkActive [⟨1, 10, false⟩] 1 = false ∧ checkActive [⟨1, 10, 
 /-- A validator counts at most once per prophecy (1): a second claim by the same validator on a pending
     prophecy — same or different content — is rejected (`ErrDuplicateMessage`). -/
 theorem claim_once_per_validator (ord : List Group → List Group) (vals : List Validator) (st : OState) (c : Claim)
-    (hw : inWhiteList st.whitelist c.validator = true) (ha : checkActive vals c.validator = true)
+    (hw : ensureInWhiteList st.whitelist c = true) (ha : checkActive vals c.validator = true)
     (hid : c.id ≠ "") (hc : c.content ≠ .empty) (hp : (target st c).status = .pending)
     (hdup : hasClaim (target st c) c.validator = true) :
     processClaim ord vals st c = .error .duplicate := by
-  unfold processClaim
+  have hsp := (ensureInWhiteList_spec hw).1
+  unfold processClaim hasClaimKey
   unfold target at hp hdup
-  simp [hw, ha, hid, hc, hp, hdup]
+  simp [hw, ha, hid, hc, hp, hdup, hsp]
 
 example : hasClaim (target ⟨[1], [⟨"a", .pending, .empty, [(.eth 1 2 "x" 0 2, [1])], [(1, .eth 1 2 "x" 0 2)]⟩], none⟩
-    ⟨"a", 1, .eth 1 3 "x" 0 2⟩) 1 = true := by decide
+    ⟨"a", 1, .eth 1 3 "x" 0 2, 0⟩) 1 = true := by decide
 
 /-- A validator counts at most once per prophecy (2): well-formedness of every tally (no validator in two claim
     groups or twice in one; the two maps agree) holds initially and is preserved by every accepted claim. -/
@@ -74,7 +91,7 @@ theorem wf_preserved (ord : List Group → List Group) (vals : List Validator) (
     (s : StatusText) (f : Content) (hwf : OStateWF st) (h : processClaim ord vals st c = .ok (st', s, f)) :
     OStateWF st' := processClaim_wf hwf h
 
-example : ∃ st' s f, processClaim id [⟨1, 10, true⟩] ⟨[1], [], none⟩ ⟨"a", 1, .eth 1 2 "x" 0 2⟩ = .ok (st', s, f) :=
+example : ∃ st' s f, processClaim id [⟨1, 10, true⟩] ⟨[1], [], none⟩ ⟨"a", 1, .eth 1 2 "x" 0 2, 0⟩ = .ok (st', s, f) :=
   ⟨_, _, _, rfl⟩
 
 /-! ### the threshold -/
@@ -162,7 +179,7 @@ theorem success_needs_threshold (ord : List Group → List Group) (hord : ∀ l,
 /-- non-vacuity: validators of power 40, 30, 30, all whitelisted; 0 claimed before, 1 claims the same: SUCCESS -/
 example : ((processClaim id [⟨0, 40, true⟩, ⟨1, 30, true⟩, ⟨2, 30, true⟩]
     ⟨[0, 1, 2], [⟨"a", .pending, .empty, [(.eth 1 2 "x" 0 2, [0])], [(0, .eth 1 2 "x" 0 2)]⟩], none⟩
-    ⟨"a", 1, .eth 1 2 "x" 0 2⟩).toOption.map (·.2)) = some (.success, .eth 1 2 "x" 0 2) := by decide
+    ⟨"a", 1, .eth 1 2 "x" 0 2, 0⟩).toOption.map (·.2)) = some (.success, .eth 1 2 "x" 0 2) := by decide
 
 /-- Full statement about the float test (not proved, and false far outside the envelope: for totals of about
     10^15 and more the double quotient of a ratio just below 7/10 can round up to `float64(0.7)`): the float64
@@ -202,15 +219,15 @@ example : Sif.F64.divGE07 7 10 = true ∧ Sif.F64.divGE07 69 100 = false ∧
 theorem final_is_final (ord : List Group → List Group) (vals : List Validator) (st : OState) (c : Claim) (p : Prophecy)
     (hp : getProphecy st.prophecies c.id = some p) (hs : p.status ≠ .pending) :
     (∃ e, processClaim ord vals st c = .error e) ∧
-    (inWhiteList st.whitelist c.validator = true → checkActive vals c.validator = true → c.id ≠ "" → c.content ≠ .empty →
+    (ensureInWhiteList st.whitelist c = true → checkActive vals c.validator = true → c.id ≠ "" → c.content ≠ .empty →
       processClaim ord vals st c = .error .finalized) := by
-  have hfin : ∀ (hw : inWhiteList st.whitelist c.validator = true) (ha : checkActive vals c.validator = true)
+  have hfin : ∀ (hw : ensureInWhiteList st.whitelist c = true) (ha : checkActive vals c.validator = true)
       (hid : c.id ≠ "") (hc : c.content ≠ .empty), processClaim ord vals st c = .error .finalized := by
     intro hw ha hid hc
     unfold processClaim
     simp [hw, ha, hid, hc, hp, hs]
   refine ⟨?_, hfin⟩
-  by_cases hw : inWhiteList st.whitelist c.validator = true
+  by_cases hw : ensureInWhiteList st.whitelist c = true
   · by_cases ha : checkActive vals c.validator = true
     · by_cases hid : c.id = ""
       · exact ⟨.invalidId, by unfold processClaim; simp [hw, ha, hid]⟩
@@ -218,7 +235,7 @@ theorem final_is_final (ord : List Group → List Group) (vals : List Validator)
         · exact ⟨.invalidClaim, by unfold processClaim; simp [hw, ha, hid, hc]⟩
         · exact ⟨_, hfin hw ha hid hc⟩
     · exact ⟨_, claim_rejected_not_bonded ord vals st c hw (by simpa using ha)⟩
-  · exact ⟨_, claim_rejected_not_whitelisted ord vals st c (by simpa using hw)⟩
+  · exact ⟨.notWhitelisted, by unfold processClaim; simp [hw]⟩
 
 example : getProphecy (OState.mk [1] [⟨"a", .success, .eth 1 2 "x" 0 2, [], []⟩] none).prophecies "a"
     = some ⟨"a", .success, .eth 1 2 "x" 0 2, [], []⟩ := by decide
@@ -271,7 +288,7 @@ theorem processClaim_perm_invariant (ord₁ ord₂ : List Group → List Group) 
     (vals : List Validator) (st : OState) (c : Claim) (hv : ValsWF vals) (hwf : OStateWF st) :
     processClaim ord₁ vals st c = processClaim ord₂ vals st c := by
   unfold processClaim
-  by_cases hw : inWhiteList st.whitelist c.validator = true
+  by_cases hw : ensureInWhiteList st.whitelist c = true
   · by_cases ha : checkActive vals c.validator = true
     · by_cases hid : (c.id == "") = true
       · simp [hw, ha, hid]
@@ -279,10 +296,14 @@ theorem processClaim_perm_invariant (ord₁ ord₂ : List Group → List Group) 
         · simp [hw, ha, hid, hc]
         · by_cases hp : (((getProphecy st.prophecies c.id).getD (newProphecy c.id)).status != StatusText.pending) = true
           · simp [hw, ha, hid, hc, hp]
-          · by_cases hd : hasClaim ((getProphecy st.prophecies c.id).getD (newProphecy c.id)) c.validator = true
+          · by_cases hd : hasClaimKey ((getProphecy st.prophecies c.id).getD (newProphecy c.id)) c = true
             · simp [hw, ha, hid, hc, hp, hd]
-            · have hq : ProphecyWF (addClaim ((getProphecy st.prophecies c.id).getD (newProphecy c.id)) c.validator c.content) :=
-                addClaim_wf _ _ _ (getD_wf st c.id hwf) (by simpa using hd) (by simpa using hc)
+            · have hsp := (ensureInWhiteList_spec hw).1
+              have hd' : hasClaim ((getProphecy st.prophecies c.id).getD (newProphecy c.id)) c.validator = false := by
+                unfold hasClaimKey at hd
+                simpa [hsp] using hd
+              have hq : ProphecyWF (addClaim ((getProphecy st.prophecies c.id).getD (newProphecy c.id)) c.validator c.content) :=
+                addClaim_wf _ _ _ (getD_wf st c.id hwf) hd' (by simpa using hc)
               simp only [hw, ha, hid, hc, hp, hd, Bool.not_true, Bool.false_eq_true, if_false]
               rw [tally_perm_invariant ord₁ ord₂ h₁ h₂ vals st.whitelist _ hv hq]
     · simp [hw, ha]
